@@ -352,4 +352,86 @@ ChkR(h, x, r, conf) ==
 \* hint overrides / the numeric tower are the first reducer: applied once per occurrence
 Chk(h, x, r, conf) == ChkR(Rewrite(h, conf), x, r, conf)
 
+(* ------------------------------------------- data accesses of the generated check (C09, C10) *)
+\* E(ok, rd, ln, it, bad): verdict, item reads (x[i], next(it), x[key]), len() calls, iterators created
+\* from collections (iter(x), iter(x.values())), forbidden operations (touching a one-shot iterable)
+E(ok, rd, ln, it, bad) == [ok |-> ok, rd |-> rd, ln |-> ln, it |-> it, bad |-> bad]
+EPlus(e, f) == E(f.ok, e.rd + f.rd, e.ln + f.ln, e.it + f.it, e.bad + f.bad)     \* e then f (f decides)
+ENo(ok) == E(ok, 0, 0, 0, 0)
+
+RECURSIVE Ev(_, _, _, _), EvTup(_, _, _, _, _), EvUnion(_, _, _, _, _)
+Ev(h, x, r, conf) ==
+  IF Ignorable(h) THEN ENo(TRUE) ELSE
+  CASE h.k \in {"cls", "lit", "type", "shallow"} -> ENo(ChkR(h, x, r, conf))
+    [] h.k = "union" -> EvUnion(FlatMembers(h.a), 1, x, r, conf)
+    [] h.k = "tupf" ->
+         IF ~InstOf(x, "tuple") THEN ENo(FALSE)
+         ELSE IF LenOf(x) # Len(h.a) THEN E(FALSE, 0, 1, 0, 0)
+         ELSE EPlus(E(TRUE, 0, 1, 0, 0), EvTup(h.a, 1, x, r, conf))
+    [] h.k = "seq" ->
+         IF ~InstOf(x, h.s) THEN ENo(FALSE)
+         ELSE IF Ignorable(h.a[1]) THEN ENo(TRUE)
+         ELSE IF LenOf(x) = 0 THEN E(TRUE, 0, 1, 0, 0)
+         ELSE IF Mut = "seq_scan_all" THEN E(TRUE, LenOf(x), 2, 0, 0)
+         ELSE EPlus(E(TRUE, 1, 2, 0, 0), Ev(h.a[1], ItemsOf(x)[Pick(LenOf(x), r, conf)], r, conf))
+    [] h.k = "reit" ->
+         IF ~InstOf(x, h.s) THEN ENo(FALSE)
+         ELSE IF Ignorable(h.a[1]) THEN ENo(TRUE)
+         ELSE IF LenOf(x) = 0 THEN E(TRUE, 0, 1, 0, 0)
+         ELSE EPlus(E(TRUE, 1, 1, 1, 0), Ev(h.a[1], ItemsOf(x)[1], r, conf))
+    [] h.k = "quasi" ->
+         IF ~InstOf(x, h.s) THEN ENo(FALSE)
+         ELSE IF Ignorable(h.a[1]) THEN ENo(TRUE)
+         ELSE IF ~IsCollection(x)
+              THEN (IF Mut = "quasi_iterates_noncollection" THEN E(TRUE, 1, 0, 0, 1) ELSE ENo(TRUE))
+         ELSE IF LenOf(x) = 0 THEN E(TRUE, 0, 1, 0, 0)
+         ELSE IF InstOf(x, "Sequence")
+              THEN EPlus(E(TRUE, 1, 2, 0, 0), Ev(h.a[1], ItemsOf(x)[Pick(LenOf(x), r, conf)], r, conf))
+              ELSE EPlus(E(TRUE, 1, 1, 1, 0), Ev(h.a[1], ItemsOf(x)[1], r, conf))
+    [] h.k = "map" ->
+         IF ~InstOf(x, h.s) THEN ENo(FALSE)
+         ELSE LET ik == Ignorable(h.a[1])  iv == Ignorable(h.a[2]) IN
+              IF ik /\ iv THEN ENo(TRUE)
+              ELSE IF Len(x.items) = 0 THEN E(TRUE, 0, 1, 0, 0)
+              ELSE IF ik THEN EPlus(E(TRUE, 1, 1, 1, 0), Ev(h.a[2], x.items[1].val, r, conf))   \* next(iter(x.values()))
+              ELSE LET ek == EPlus(E(TRUE, 1, 1, 1, 0), Ev(h.a[1], x.items[1].key, r, conf)) IN   \* next(iter(x))
+                   IF ~ek.ok \/ iv THEN ek
+                   ELSE EPlus(EPlus(ek, E(TRUE, 1, 0, 0, 0)), Ev(h.a[2], x.items[1].val, r, conf))   \* x[key]
+    [] h.k = "items" ->
+         IF ~InstOf(x, "ItemsView") THEN ENo(FALSE)
+         ELSE IF Len(x.items) = 0 THEN E(TRUE, 0, 1, 0, 0)
+         ELSE EPlus(E(TRUE, 1, 1, 1, 0), Ev(HTupF(h.a), x.items[1], r, conf))
+    [] h.k = "ann" ->
+         LET eb == IF Ignorable(h.a[1]) THEN ENo(TRUE) ELSE Ev(h.a[1], x, r, conf) IN
+         IF ~eb.ok THEN eb ELSE EPlus(eb, ENo(\A i \in DOMAIN h.m : ValCode(h.m[i], x)))
+\* fixed tuple: positions in order, stop at the first failing one
+EvTup(hs, i, x, r, conf) ==
+  IF i > Len(hs) THEN ENo(TRUE)
+  ELSE IF Ignorable(hs[i]) THEN EvTup(hs, i + 1, x, r, conf)
+  ELSE LET e == EPlus(E(TRUE, 1, 0, 0, 0), Ev(hs[i], ItemsOf(x)[i], r, conf)) IN
+       IF ~e.ok THEN e ELSE EPlus(e, EvTup(hs, i + 1, x, r, conf))
+\* union: members in order, stop at the first accepting one
+EvUnion(ms, i, x, r, conf) ==
+  IF i > Len(ms) THEN ENo(FALSE)
+  ELSE LET e == Ev(ms[i], x, r, conf) IN
+       IF e.ok THEN e ELSE EPlus(e, EvUnion(ms, i + 1, x, r, conf))
+
+\* the declarative bound of C09: item reads allowed by the hint alone (one item, or one key and its
+\* value, per container level the hint describes; a fixed tuple may read each of its positions)
+RECURSIVE ReadBound(_), SumBound(_)
+SumBound(hs) == IF hs = <<>> THEN 0 ELSE ReadBound(Head(hs)) + SumBound(Tail(hs))
+ReadBound(h) ==
+  CASE h.k \in {"seq", "reit", "quasi"} -> 1 + ReadBound(h.a[1])
+    [] h.k = "map"   -> 2 + ReadBound(h.a[1]) + ReadBound(h.a[2])
+    [] h.k = "items" -> 3 + ReadBound(h.a[1]) + ReadBound(h.a[2])
+    [] h.k = "tupf"  -> Len(h.a) + SumBound(h.a)
+    [] h.k = "union" -> SumBound(h.a)
+    [] h.k = "ann"   -> ReadBound(h.a[1])
+    [] OTHER -> 0
+RECURSIVE Nodes(_), SumNodes(_)
+SumNodes(hs) == IF hs = <<>> THEN 0 ELSE Nodes(Head(hs)) + SumNodes(Tail(hs))
+Nodes(h) == 1 + SumNodes(h.a)
+\* len() calls: at most two per container level (emptiness test + index computation)
+LenBound(h) == 2 * Nodes(h)
+
 =============================================================================
